@@ -265,7 +265,14 @@ class Tree:
         ts = parent.timestamp + (dt if dt is not None else self.rng.randrange(1, 200))
         miner_pk = self.keys.pk(self.rng.randrange(0, len(self.keys.pks)) if miner is None else miner)
         b = mine(self.cs, parent_hash, txs, miner_pk, ts)
-        self.cs = self.cs.add_block(b, ts + 10)
+        try:
+            self.cs = self.cs.add_block(b, ts + 10)
+        except Exception as e:
+            raise kit.OwnBlockRejected({
+                "kind": "a block produced by the node's own assembly (id below target) is rejected by its own full validation",
+                "error": repr(e)[:300], "block": b.serialize().hex(), "now": ts + 10, "height": b.height,
+                "retarget_interval": consensus.BLOCKS_BETWEEN_TARGET_READJUSTMENT,
+                "chain": [x.serialize().hex() for x in self.blocks]})
         self.blocks.append(b)
         return b
 
